@@ -3255,6 +3255,10 @@ public:
           operator-=(x);
           assert(!is_bottom());
           m_vert_map.insert(vmap_elt_t(x, {v, w}));
+        } else {
+          // no octagonal constraint relates x to the variables of e:
+          // x only keeps the interval of e
+          set(x, x_int);
         }
       }
     }
